@@ -110,16 +110,45 @@ impl Property for C17 {
         "C17"
     }
     fn rule(&self) -> &'static str {
-        "case = a definition file of 0-25 range lines whose ends are anchor code points (0, 1, 0x7F/0x80, 0x7FF/0x800, 0xD7FE/0xD7FF, 0xE000, 0xFFFF/0x10000, 0x10FFFE/0x10FFFF) \
+        "case = a definition file of 0-25 range lines (plus two families of up to 600 ranges nested around one point / up to 1,100 consecutive blocks with pairwise distinct class sets, sizes drawn around 2^k) whose ends are anchor code points (0, 1, 0x7F/0x80, 0x7FF/0x800, 0xD7FE/0xD7FF, 0xE000, 0xFFFF/0x10000, 0x10FFFE/0x10FFFF) \
          +- 3, so that overlap, nesting, adjacency, duplicates and single points are frequent, 1-3 classes per line incl. ALL and the NOOOVBOW flags, comment and category \
          lines interleaved, some lines invalid (reversed range, surrogate end, unknown class). If the file loads, get_category_types(c) for every range end, its neighbours, \
          0, U+10FFFF and 64 random scalars (thorough: blocks over ALL scalar values) must equal the union of the classes of all lines containing c (DEFAULT if none), and the \
          range iterator must be ordered, gap free and agree with point queries. Non-trivial: the file loads and >= 2 lines overlap or touch."
     }
     fn strategy(&self, tier: Tier) -> BoxedStrategy<Case> {
-        (vec(line(), 0..=tier.pick(14, 25)), vec(prop_oneof![0u32..0x110000, (select(ANCHORS), 0u32..8).prop_map(|(a, d)| a.saturating_add(d))], 64), prop::bool::weighted(tier.pick(0.0, 0.002)))
-            .prop_map(|(lines, probes, all_scalars)| Case { lines, probes, all_scalars })
-            .boxed()
+        let probes = || vec(prop_oneof![0u32..0x110000, (select(ANCHORS), 0u32..8).prop_map(|(a, d)| a.saturating_add(d))], 64);
+        let general = (vec(line(), 0..=tier.pick(14, 25)), probes(), prop::bool::weighted(tier.pick(0.0, 0.002))).prop_map(|(lines, probes, all_scalars)| Case { lines, probes, all_scalars });
+        const NAMES: &[&str] = &["SPACE", "KANJI", "SYMBOL", "NUMERIC", "ALPHA", "HIRAGANA", "KATAKANA", "KANJINUMERIC", "GREEK", "CYRILLIC", "USER1", "USER2", "USER3", "USER4"];
+        // many lines: n (around 2^k, up to 600) ranges nested around one point, all sharing one class and
+        // each adding others; the ends differ, so the nesting depth changes at every boundary
+        let nested = (crate::gen::boundary_len(600), select(vec![0x4100u32, 0x800, 0x10000, 0x30A0]), 1u32..4, 0u32..3, any::<u16>(), vec(line(), 0..4), probes()).prop_map(
+            |(n, center, sl, sr, mask, mut extra, probes)| {
+                let shared = NAMES[(mask as usize) % NAMES.len()];
+                for i in 0..n as u32 {
+                    let mut cats = vec![shared.to_string()];
+                    if i % 5 == 0 {
+                        cats.push(NAMES[((mask as usize) + 1 + (i as usize / 5)) % NAMES.len()].to_string());
+                    }
+                    extra.push(Line { begin: center.saturating_sub(i * sl), end: Some(center + i * sr), cats, deco: 0 });
+                }
+                Case { lines: extra, probes, all_scalars: false }
+            },
+        );
+        // many distinct class sets: consecutive blocks, the i-th carrying the classes of the bits of i + 1
+        let distinct = (crate::gen::boundary_len(1100), select(vec![0x1000u32, 0xF000, 0x20000]), 1u32..4, vec(line(), 0..4), probes()).prop_map(|(n, base, w, mut extra, probes)| {
+            for i in 0..n as u32 {
+                let bits = i + 1;
+                let cats: Vec<String> = (0..NAMES.len()).filter(|b| bits >> b & 1 == 1).map(|b| NAMES[b].to_string()).collect();
+                if cats.is_empty() {
+                    continue;
+                }
+                let begin = base + i * w;
+                extra.push(Line { begin, end: if w == 1 { None } else { Some(begin + w - 1) }, cats, deco: 0 });
+            }
+            Case { lines: extra, probes, all_scalars: false }
+        });
+        prop_oneof![60 => general, 1 => nested, 1 => distinct].boxed()
     }
     fn cases_per_shard(&self, tier: Tier) -> u32 {
         tier.pick(40000, 400000)
